@@ -106,7 +106,19 @@ pub mod fallback {
     /// Returns the largest integer less than or equal to `x`.
     #[inline]
     pub fn floor(x: f32) -> f32 {
-        (x as i64 - x.is_sign_negative() as i64) as f32
+        // Every f32 with a magnitude of 2^23 or more is an integer;
+        // this also passes infinities and NaN through unchanged
+        if !(abs(x) < 8_388_608.0) {
+            return x;
+        }
+        let trunc = x as i32 as f32;
+        if trunc > x {
+            trunc - 1.0
+        } else if trunc == x {
+            x // Keeps the sign of -0.0
+        } else {
+            trunc
+        }
     }
     // Returns the least non-negative remainder of `x` (mod `m`).
     #[inline]
